@@ -4,7 +4,7 @@
 import json
 import re
 from functools import singledispatch
-from typing import Dict, Iterable, List, Mapping, Union
+from typing import Dict, Iterable, List, Mapping
 
 import sympy
 
@@ -17,27 +17,21 @@ def serialize_expr(expr: sympy.Expr):
     return str(expr)
 
 
-def _make_symbols_map(
-    symbol_names: Iterable[str],
-) -> Dict[str, Union[sympy.Symbol, Dict[int, sympy.Symbol]]]:
-    symbols_map: Dict[str, Union[sympy.Symbol, Dict[int, sympy.Symbol]]] = {}
-    for name in symbol_names:
+def deserialize_expr(expr_str, symbol_names):
+    symbols_map: Dict[str, sympy.Symbol] = {}
+    for position, name in enumerate(symbol_names):
         # Check if the symbol name has brackets, such as "x[4]". Such symbol names will
         # occur in circuits imported from Qiskit when the Qiskit circuit was
-        # parameterized using a Qiskit ParameterVector.
-        match = re.search(r"^(.*)\[([0-9]+)\]$", name)
-        if match:
-            symbols_map.setdefault(match.group(1), {})[
-                int(match.group(2))
-            ] = sympy.Symbol(name)
+        # parameterized using a Qiskit ParameterVector. It is a single symbol, so it
+        # is given a placeholder identifier in the text. Parsing "x[4]" as an item of
+        # "x" instead would clash with a plain symbol "x" used next to it.
+        if re.search(r"^(.*)\[([0-9]+)\]$", name):
+            placeholder = f"_indexed_symbol_{position}_"
+            expr_str = re.sub(r"(?<![\w.])" + re.escape(name), placeholder, expr_str)
+            symbols_map[placeholder] = sympy.Symbol(name)
         else:
             symbols_map[name] = sympy.Symbol(name)
 
-    return symbols_map
-
-
-def deserialize_expr(expr_str, symbol_names):
-    symbols_map = _make_symbols_map(symbol_names)
     return sympy.sympify(expr_str, locals=symbols_map)
 
 
